@@ -1,7 +1,7 @@
 SPECIFICATION Spec
 CONSTANT Calls <- K3
-CONSTANT Failing <- NoFail
-CONSTANT GiveBackOnFailure = FALSE
+CONSTANT Failing <- F3
+CONSTANT GiveBackOnFailure = TRUE
 CONSTANT Fix_RegisterAtomic = TRUE
 CONSTANT Fix_ExplicitCheck = TRUE
 INVARIANT NoSharedId
